@@ -151,6 +151,22 @@ def gen_cases(rng, tier):
         ops = rand_path_ops(rng, rng.choice([0.0, 50.0, 13.37]), rng.choice([0.0, 50.0, -7.1]), rng.uniform(5, 60), curves=rng.random() < 0.5,
                             grid=rng.choice([1048576.0, 10.0, 3.0, 1000.0]))
         cases.append(("tight_bounds", [0] + ops))
+    # the constructors that bypass the builder ops: from_rect (stores the Rect as bounds without recomputing) and from_oval,
+    # on rectangles with full-mantissa edges
+    for i in range(400 if tier == "quick" else 5000):
+        gr = rng.choice([10.0, 10.0, 3.0, 1000.0, 1048576.0, 1.0])
+        x0, y0 = round(rng.uniform(-50, 200) * gr) / gr, round(rng.uniform(-50, 200) * gr) / gr
+        x1, y1 = x0 + round(rng.uniform(0.5, 250) * gr) / gr, y0 + round(rng.uniform(0.5, 250) * gr) / gr
+        cases.append(("tight_bounds", [3 + (i % 4 == 3), f2b(x0), f2b(y0), f2b(x1), f2b(y1)]))
+    # curves of huge but finite magnitude (1e19 .. 3e30): the extrema must still be found
+    for i in range(60 if tier == "quick" else 600):
+        sc = rng.choice([1e19, 1e20, 1e25, 3e30, 1e15])
+        P = lambda: (rng.uniform(-4, 4) * sc, rng.uniform(-1, 1) * sc)
+        p0, p1, p2, p3 = P(), P(), P(), P()
+        ops = [0, f2b(p0[0]), f2b(p0[1]), 3, f2b(p1[0]), f2b(p1[1]), f2b(p2[0]), f2b(p2[1]), f2b(p3[0]), f2b(p3[1])]
+        if i % 3 == 0:
+            ops += [2, f2b(P()[0]), f2b(P()[1]), f2b(P()[0]), f2b(P()[1])]
+        cases.append(("tight_bounds", [0] + ops))
     return cases
 
 
@@ -160,7 +176,7 @@ def oracle(suite, args, out):
     o = ints(out)
     if suite == "tight_bounds":
         if len(o) >= 5 and o[0] == 0:
-            what = ["the path", "the stroked path", "the dashed path"][args[0] % 3]
+            what = ["the path", "the stroked path", "the dashed path", "PathBuilder::from_rect", "PathBuilder::from_oval"][args[0] % 5]
             if o[1] != 0:
                 return "%s breaks a structural guarantee (%s)" % (what, {1: "fewer than two verbs", 2: "does not start with Move", 3: "two consecutive Moves",
                         4: "two consecutive Closes", 5: "a non-Move verb follows Close", 6: "point count does not match the verbs", 7: "non-finite point",
